@@ -14,7 +14,7 @@ const G2_65: i64 = (Q - 1) / 32;
 const PRE32: i64 = 2_143_289_344; // documented precondition of the 32-bit reductions
 const PRE64: i64 = 67_058_539; // documented precondition of partial_reduce64: |a| < PRE64 << 32
 
-const RULE: &str = "every function is evaluated through its verif_hooks wrapper and compared with a big-integer definition (i64/i128 rem_euclid): Power2Round, Decompose/HighBits/LowBits and UseHint on every r in [0,q) x both gamma2 x h in {0,1}; Decompose also on i32 inputs in the documented precondition range against r mod q; MakeHint on every r in (-q,q) x z = q - ct0 for ct0 in {0, +-1, +-(gamma2-1), +-gamma2} plus random caller-shaped pairs; center_mod (mod+-), partial_reduce32, full_reduce32 on the i32 precondition range (congruence and output range); mont_reduce on all 2^32 low words x boundary and seeded high words; partial_reduce64 on every x*2^32 with |x| < 67058539; CoeffFromThreeBytes on all 2^24 inputs (both CTEST values); CoeffFromHalfByte on 16 x eta in {2,4} x CTEST; all 256 zeta table entries against modpow. thorough = every point of every domain (exhaustive); quick = every 2^23/2^24-point domain in full, the 2^32 domains at a seeded stride plus +-4096 windows around every multiple of q near the range ends, 0, 2*gamma2 multiples and 2^d. Distinct cases are counted by enumeration index (each point of a sweep is visited once).";
+const RULE: &str = "every function is evaluated through its verif_hooks wrapper and compared with a big-integer definition (i64/i128 rem_euclid): Power2Round, Decompose/HighBits/LowBits and UseHint on every r in [0,q) x both gamma2 x h in {0,1}; Decompose also on i32 inputs in the documented precondition range against r mod q; MakeHint on every r in (-q,q) x z = q - ct0 for ct0 in {0, +-1, +-(gamma2-1), +-gamma2} plus random caller-shaped pairs; center_mod (mod+-), partial_reduce32, full_reduce32 on the i32 precondition range (congruence and output range); mont_reduce on all 2^32 low words x boundary and seeded high words; partial_reduce64 on every x*2^32 with |x| < 67058539; CoeffFromThreeBytes on all 2^24 inputs (both CTEST values); CoeffFromHalfByte on 16 x eta in {2,4} x CTEST; all 256 zeta table entries against modpow; bit_length on 1..2^24, infinity_norm and is_in_range on seeded vectors with planted extremes. thorough = every point of every domain (exhaustive); quick = every 2^23/2^24-point domain in full, the 2^32 domains at a seeded stride plus +-4096 windows around every multiple of q near the range ends, 0, 2*gamma2 multiples and 2^d. Distinct cases are counted by enumeration index (each point of a sweep is visited once).";
 
 #[inline]
 fn modq(x: i64) -> i64 { x.rem_euclid(Q) }
@@ -264,7 +264,7 @@ pub fn run(ctx: &Ctx) -> StageOut {
     let lim: i64 = (1i64 << 31) * Q;
     let hi_max = lim >> 32; // 4190208
     let mut his: Vec<i64> = vec![-hi_max - 1, -hi_max, -hi_max + 1, -1, 0, 1, hi_max - 1, hi_max, Q / 4, -Q / 4];
-    let n_seeded = if full32 { 64 } else { 6 };
+    let n_seeded = if full32 { 64 } else { 48 };
     for _ in 0..n_seeded {
         his.push(g.range(-hi_max, hi_max));
     }
@@ -318,6 +318,37 @@ pub fn run(ctx: &Ctx) -> StageOut {
         let got = if ctest { hk::coeff_from_half_byte::<true>(eta as i32, b) } else { hk::coeff_from_half_byte::<false>(eta as i32, b) }.ok().map(i64::from);
         if got != want { Some(format!("eta={eta} ctest={ctest} got {got:?} want {want:?}")) } else { None }
     });
+
+    // ---- small helpers the functions above are built from ----------------------------------------------
+    sw.run("bit_length", 1, (1 << 24) - 1, if checked { 5 } else { 1 }, 0, |x| {
+        let want = 64 - (x as u64).leading_zeros() as usize;
+        let got = hk::bit_length(x as i32);
+        if got != want { Some(format!("got {got} want {want}")) } else { None }
+    });
+    {
+        let seed = ctx.seed;
+        sw.run("infinity_norm_and_is_in_range", 0, if checked { 3_000 } else { 40_000 }, 1, 0, |blk| {
+            let mut g = Prng::derive(seed, "c15-norm", blk as u64);
+            // a vector of 4 polynomials with a planted extreme at a random slot
+            let lim = *g.pick(&[Q - 1, (Q - 1) / 2, (Q + 1) / 2, 1 << 19, 1 << 17, 4096, 2, 1]);
+            let mut v: [[i32; 256]; 4] = core::array::from_fn(|_| core::array::from_fn(|_| g.range(-lim / 2, lim / 2) as i32));
+            let (pi, ci) = (g.below(4) as usize, g.below(256) as usize);
+            let planted = *g.pick(&[lim, -lim, lim - 1, -(lim - 1), 0]);
+            v[pi][ci] = planted as i32;
+            let want = v.iter().flat_map(|p| p.iter()).map(|&c| mod_pm(i64::from(c), Q).abs()).max().unwrap();
+            let got = i64::from(hk::infinity_norm::<4>(&v));
+            if got != want {
+                return Some(format!("infinity_norm got {got} want {want}"));
+            }
+            // is_in_range(w, lo, hi) <=> all -lo <= w_i <= hi
+            let (lo, hi) = (g.range(0, lim), g.range(0, lim));
+            let want_r = v[pi].iter().all(|&c| i64::from(c) >= -lo && i64::from(c) <= hi);
+            if hk::is_in_range(&v[pi], lo as i32, hi as i32) != want_r {
+                return Some(format!("is_in_range(lo={lo}, hi={hi}) want {want_r}"));
+            }
+            None
+        });
+    }
 
     // ---- zeta table --------------------------------------------------------------------------------
     let zt = hk::zeta_table_mont();
